@@ -611,6 +611,17 @@ def entryOf (cfg : Cfg) (fns : UserFns) (d : IField) (v : AV) : PV :=
     | .custom _ j, some f => .leaf (some (fns.ser f j))
     | _, _ => argObj fns v
 
+def dictPart (cfg : Cfg) (d : IField) (v : AV) : List Call :=
+  match v, cfg.serOfType d.type with
+  | .custom _ j, some f => [⟨f, .leaf (some j)⟩]
+  | _, _ => []
+
+/-- the serialize calls made while the dict literal of a supported method is evaluated: one per
+    `Scalar!` argument whose scalar has `serialize` -/
+def dictCalls (cfg : Cfg) : List IField → List AV → List Call
+  | d :: ds, v :: vs => dictPart cfg d v ++ dictCalls cfg ds vs
+  | _, _ => []
+
 def dictOf (cfg : Cfg) (fns : UserFns) : List IField → List AV → List (String × PV)
   | d :: ds, v :: vs => (d.name, entryOf cfg fns d v) :: dictOf cfg fns ds vs
   | _, _ => []
